@@ -702,7 +702,7 @@ func (e *covEnv) gossip(stage string, b *nom.AccountBlock, cv covVariant) {
 	diff := blockDiff(b, cv.v) // before the delivery: the node writes into the object it is handed
 	gerr := e.f.Gossip([]*nom.AccountBlock{cv.v})
 	res := resStr(gerr)
-	e.c.Emit("variant covered %s %s %s | %s", blockKind(b), stage, cv.name, res)
+	e.c.Emit("variant covered %s %s %s => %s", blockKind(b), stage, cv.name, res)
 	e.c.Hit("covered-" + blockKind(b) + "-" + stage + "-" + res)
 	e.c.Hit("covered-field-" + cv.field + "-" + res)
 	ctx := fmt.Sprintf("a variant (%s) of the %s - altered while hash, changes hash, key and signature stay: %s - delivered by %s (result: %v)",
@@ -789,7 +789,7 @@ func (e *covEnv) inMomentum(dm *nom.DetailedMomentum, header bool) {
 			ctx := fmt.Sprintf("a variant (%s) of the producer's momentum %d hash %s - altered while hash, key and signature stay: %s - delivered by InsertChain",
 				mv.name, H, h8(m.Hash), momentumDiff(m, mv.m))
 			err := e.insert(ctx, mv.m, mv.blocks)
-			c.Emit("variant covered %s header %s | %s", kind, mv.name, resStr(err))
+			c.Emit("variant covered %s header %s => %s", kind, mv.name, resStr(err))
 			c.Hit("covered-" + kind + "-header-" + resStr(err))
 			c.Hit("covered-momentum-field-" + mv.field + "-" + resStr(err))
 		}
@@ -837,7 +837,7 @@ func (e *covEnv) inMomentum(dm *nom.DetailedMomentum, header bool) {
 			ctx := fmt.Sprintf("a variant (%s) of the %s - altered while hash, changes hash, key and signature stay: %s - served inside the producer's momentum %d by InsertChain",
 				cv.name, blockID(b), blockDiff(b, cv.v), H)
 			err := e.insert(ctx, m, blocks)
-			c.Emit("variant covered %s in-momentum %s | %s", blockKind(b), cv.name, resStr(err))
+			c.Emit("variant covered %s in-momentum %s => %s", blockKind(b), cv.name, resStr(err))
 			c.Hit("covered-" + blockKind(b) + "-in-momentum-" + resStr(err))
 			c.Hit("covered-field-" + cv.field + "-" + resStr(err))
 			e.heldUnder(ctx, b.Address, b.Hash)
